@@ -169,6 +169,44 @@ func VerifUnpack() {
 	verifCheckContained(root, dir)
 }
 
+var verifChainSegments = []string{"..", "t", "v", "."}
+
+// VerifUnpackChain: symlink-then-write-through sequences of three entries. A symlink t, then a
+// symlink or hard link x whose target walks through t (lexically inside the target directory,
+// physically possibly not), then a regular file with the same name as the link.
+func VerifUnpackChain() {
+	vos.Reset()
+	root, dir := verifSandbox()
+	defer os.RemoveAll(root)
+	names := []string{"x", "d/x"}
+	t1 := []string{".", "..", "a", "/"}[verifrt.Choice("t-target", 4)]
+	linkName := names[verifrt.Choice("link-name", len(names))]
+	linkType := byte(tar.TypeSymlink)
+	if verifrt.Choice("hard-link", 2) == 1 {
+		linkType = tar.TypeLink
+	}
+	target := ""
+	for i := 0; i < 3; i++ {
+		if i > 0 {
+			target += "/"
+		}
+		target += verifChainSegments[verifrt.Choice("target-segment", len(verifChainSegments))]
+	}
+	fileName := names[verifrt.Choice("file-name", len(names))]
+	if verifrt.Choice("dot-slash", 2) == 1 {
+		fileName = "./" + fileName
+	}
+	entries := []tarstub.Entry{
+		{Name: "t", Typeflag: tar.TypeSymlink, Mode: 0o777, Linkname: t1},
+		{Name: linkName, Typeflag: linkType, Mode: 0o644, Linkname: target},
+		{Name: fileName, Typeflag: tar.TypeReg, Mode: 0o644, Content: []byte("x")},
+	}
+	_, err := unpack(dir, tarstub.NewStream(entries), SymlinkRetain, SymlinkErrLog, &require.FileRequirerAll{}, map[string]bool{}, true, 1<<20)
+	_ = err
+	verifrt.Reach("unpacked")
+	verifCheckContained(root, dir)
+}
+
 // VerifTwin must be violated.
 func VerifTwin() {
 	vos.Reset()
